@@ -4,8 +4,8 @@
    under a `_partial` twin (see DESIGN.md section 9). *)
 From Coq Require Import List String Bool.
 Import ListNotations.
-From DI Require Import Syntax Tokens Bounds Subs Superset Substitute Spec Examples.
-From DI.proofs Require Import Basics SupersetSound SupersetExact SubstituteProofs BoundsProofs.
+From DI Require Import Syntax Tokens Bounds Subs Superset Substitute Spec RustSem Dispatch Examples.
+From DI.proofs Require Import Basics SupersetSound SupersetExact SubstituteProofs BoundsProofs DispatchProofs.
 
 (* ===================================================================================== *)
 (* C09 -- header generalisation is exact first-order matching                             *)
@@ -140,3 +140,41 @@ Example C12_nonvacuous :
   tb_tokens p = ["m"; "::"; "D"; "<"; "u8"; ">"]%string.
 Proof. vm_compute. repeat split. Qed.
 Print Assumptions C12_nonvacuous.
+
+(* ===================================================================================== *)
+(* C01 / C02 / C04 -- meaning of the generated program (Dispatch.v), for every family,     *)
+(* every world and every ground query, from the grouping invariant that C11 checks         *)
+(* ===================================================================================== *)
+
+(* C02: the trait is implemented (through a family) iff some member block applies; in
+   particular no block is narrowed by bounds only other blocks mention *)
+Theorem C02_exact_coverage : forall (Q V : Type) keyvals (members : list (member Q V)),
+  grouping_invariant Q V keyvals members ->
+  forall q, main_applies Q V keyvals members q = true <->
+            exists m, In m members /\ m_applies Q V m q = true.
+Proof. exact exact_coverage. Qed.
+Print Assumptions C02_exact_coverage.
+
+Theorem C02_no_narrowing : forall (Q V : Type) keyvals (members : list (member Q V)),
+  grouping_invariant Q V keyvals members ->
+  forall m q, In m members -> m_applies Q V m q = true -> In m (selected Q V keyvals members q).
+Proof. exact no_narrowing. Qed.
+Print Assumptions C02_no_narrowing.
+
+(* C04: a query satisfying two different members makes the helper impls incoherent *)
+Theorem C04_overlap_incoherent : forall (Q V : Type) keyvals (members : list (member Q V)),
+  grouping_invariant Q V keyvals members ->
+  forall m1 m2 q, In m1 members -> In m2 members -> m1 <> m2 ->
+  m_applies Q V m1 q = true -> m_applies Q V m2 q = true -> ~ helpers_coherent Q V members.
+Proof. exact overlap_incoherent. Qed.
+Print Assumptions C04_overlap_incoherent.
+
+(* C01: in a coherent expansion the member reached by the delegation is the unique block
+   that applies to the query *)
+Theorem C01_dispatch_sound : forall (Q V : Type) keyvals (members : list (member Q V)),
+  grouping_invariant Q V keyvals members ->
+  forall q m, helpers_coherent Q V members -> In m (selected Q V keyvals members q) ->
+  In m members /\ m_applies Q V m q = true /\
+  forall m', In m' members -> m_applies Q V m' q = true -> m' = m.
+Proof. exact dispatch_sound. Qed.
+Print Assumptions C01_dispatch_sound.
